@@ -159,9 +159,30 @@ def _docs(tier):
     return _DOCS[tier]
 
 
+GRID_PAIRS = [(7, 3), (5, 3), (7, 5), (11, 3), (9, 7), (12, 5), (13, 2), (16, 7), (48, 7), (32, 3), (24, 5), (96, 1)]
+
+
+def check_grid(a, b, ctx):
+    """Objects on EVERY k/a beat (lane 1) and every j/b beat (lane 2) of a measure, and a mix of both grids in ONE lane of the next
+    measure, so that every slot index the writer can compute for that subdivision mix is exercised."""
+    doc = default_doc()
+    doc["notes"] = [("hit", F(k, a), 1, None, "a") for k in range(0, 4 * a)] + [("hit", F(j, b), 2, None, "b") for j in range(0, 4 * b)]
+    mixed = sorted({4 + F(k, a) for k in range(1, 4 * a, 2)} | {4 + F(j, b) for j in range(0, 4 * b, 3)})
+    doc["notes"] += [("hit", p, 3, None, "a") for p in mixed]
+    check_doc(doc, dict(devs=[f"grid={a}x{b}"], elems=[]), dict(grid=[a, b]), ctx, key=("grid", a, b))
+
+
+def check_many_tempos(ctx):
+    """40 tempo points: ids beyond Z (two-digit base-36 ids 10, 11, ...)."""
+    doc = default_doc()
+    doc["bpms"] = [(F(4 * i), str(100 + i)) for i in range(40)]
+    doc["notes"] = [("hit", F(4 * i) + F(1, 2), i % 8, None, "a") for i in range(0, 40, 3)] + [("hold", F(150), 2, F(9), "b")]
+    check_doc(doc, dict(devs=["tempo_points=40"], elems=[]), dict(many_tempos=40), ctx, key=("many", 40))
+
+
 def roots(tier, seed):
     n = len(_docs(tier))
-    rs = [dict(kind="lcm", first=d) for d in DENS] + [dict(kind="lanes"), dict(kind="routes")]
+    rs = [dict(kind="lcm", first=d) for d in DENS] + [dict(kind="lanes"), dict(kind="routes"), dict(kind="many")] + [dict(kind="grid", pair=list(p)) for p in GRID_PAIRS]
     if tier == "thorough":
         rs.append(dict(kind="limit"))
     return rs + [dict(kind="docs", start=s, stop=min(n, s + CHUNK)) for s in range(0, n, CHUNK)]
@@ -183,6 +204,10 @@ def explore(root, tier, ctx):
             check_route(r, ctx)
     elif k == "limit":
         check_limit(ctx)
+    elif k == "grid":
+        check_grid(root["pair"][0], root["pair"][1], ctx)
+    elif k == "many":
+        check_many_tempos(ctx)
     else:
         docs = _docs(tier)
         for i in range(root["start"], root["stop"]):
@@ -203,6 +228,10 @@ def replay(case, ctx):
         check_route(case["route"], ctx)
     elif "limit" in case:
         check_limit(ctx)
+    elif "grid" in case:
+        check_grid(case["grid"][0], case["grid"][1], ctx)
+    elif "many_tempos" in case:
+        check_many_tempos(ctx)
     else:
         check(tuple(tuple(x) for x in case["devs"]), tuple(case["seq"]), ctx)
 
